@@ -1128,7 +1128,10 @@ def case_term(proto, res) -> tuple:
     unm = list(pc.unmodelled) + (["payload normalisation failed"] if it.norm_failed else [])
     if any(a.type in (10, 5) or a.HasField("g") or len(a.graphs) for f in proto.functions for a in f.attribute_proto):
         unm.append("graph-valued function attribute default")
-    return f"({it.norm_table()}, {pterm}, {obs}, {reser}, {common.cbool(fix_ok)})", unm
+    old = proto.ir_version < 10 and len(proto.functions) > 0      # IR<10 experimental function value-info (ModelOld.v)
+    qproto = res["reser"][1] if (res["outcome"] != "raise" and res["reser"] and res["reser"][0] == "ok") else None
+    xs, ys = S.exp_tables(it, protos=[proto, qproto], models=[res.get("model")]) if old else ("[]", "[]")
+    return (f"({common.cbool(old)}, {xs}, {ys}, {it.norm_table()}, {pterm}, {obs}, {reser}, {common.cbool(fix_ok)})"), unm
 
 
 def _parse_lists(out: str) -> list:
@@ -1145,18 +1148,18 @@ def correspondence(ck, terms: list, tag: str) -> tuple:
     chunk = 150
     for i in range(0, len(terms), chunk):
         text = S.CASE_HEADER + "From IRV Require Import C03.Tree C03.TreeF C03.PayFixDefs C17.Tree2 C17.PUnfold C17.Fix2Defs.\n" + (
-            "Definition cases : list (list (N * N) * mproto * option obs * option (option mproto) * bool) :=\n  "
+            "Definition cases : list (bool * xparse * xcomp * list (N * N) * mproto * option obs * option (option mproto) * bool) :=\n  "
             + "[" + ";\n  ".join(terms[i:i + chunk]) + "].\n"
-            "Eval vm_compute in (failing (fun c => let '(np, p, o, r, f) := c in agree_deser p o) cases).\n"
-            "Eval vm_compute in (failing (fun c => let '(np, p, o, r, f) := c in agree_reser np p r) cases).\n"
-            "Eval vm_compute in (failing (fun c => let '(np, p, o, r, f) := c in\n"
-            "   match r with Some (Some _) => Bool.eqb (model_fixpoint np p) f | _ => true end) cases).\n"
-            "Eval vm_compute in (failing (fun c => let '(np, p, o, r, f) := c in\n"
-            "   match deser_model p with Ok (h, _) => inv_b h | Raise _ => true end) cases).\n"
-            # the component statements of the unconditional fixpoint theorem, on this proto
-            "Eval vm_compute in (failing (fun c => let '(np, p, o, r, f) := c in fix2_statement_b np p) cases).\n"
-            "Eval vm_compute in (failing (fun c => let '(np, p, o, r, f) := c in\n"
-            "   np_ok np && np_idem np && forallb (fun b => b) (w2_parts np p)) cases).\n")
+            "Eval vm_compute in (failing (fun c => let '(old, X, Y, np, p, o, r, f) := c in agree_deser_x old X p o) cases).\n"
+            "Eval vm_compute in (failing (fun c => let '(old, X, Y, np, p, o, r, f) := c in agree_reser_x old X Y np p r) cases).\n"
+            "Eval vm_compute in (failing (fun c => let '(old, X, Y, np, p, o, r, f) := c in\n"
+            "   match r with Some (Some _) => Bool.eqb (model_fixpoint_x old X Y np p) f | _ => true end) cases).\n"
+            "Eval vm_compute in (failing (fun c => let '(old, X, Y, np, p, o, r, f) := c in\n"
+            "   match deser_model_x old X p with Ok (h, _) => inv_b h | Raise _ => true end) cases).\n"
+            # the component statements of the unconditional fixpoint theorem (IR >= 10 semantics), on this proto
+            "Eval vm_compute in (failing (fun c => let '(old, X, Y, np, p, o, r, f) := c in old || fix2_statement_b np p) cases).\n"
+            "Eval vm_compute in (failing (fun c => let '(old, X, Y, np, p, o, r, f) := c in\n"
+            "   old || (np_ok np && np_idem np && forallb (fun b => b) (w2_parts np p))) cases).\n")
         files.append((f"{tag}_{i // chunk}", text))
     outs = ck.coq_eval_many(files)
     bad_d, bad_r, bad_f, bad_i, bad_s, bad_w = [], [], [], [], [], []
